@@ -8,24 +8,49 @@ pub const DEG: f64 = std::f64::consts::PI / 180.0;
 
 fn q_of(sinphi: f64) -> f64 {
     let e = E2.sqrt();
-    (1.0 - E2) * (sinphi / (1.0 - E2 * sinphi * sinphi) - (1.0 / (2.0 * e)) * ((1.0 - e * sinphi) / (1.0 + e * sinphi)).ln())
+    (1.0 - E2) * (sinphi / (1.0 - E2 * sinphi * sinphi) + (e * sinphi).atanh() / e)
+}
+
+/// authalic colatitude (rad, from the nearer pole... of the same hemisphere) of a point whose GEODETIC colatitude
+/// from that pole is `t`; stable for t -> 0 (no asin near 1): 1 - q/q_p is formed without cancellation
+fn authalic_colat(t: f64) -> f64 {
+    let e = E2.sqrt();
+    let s = t.cos();
+    let d = 2.0 * (t / 2.0).sin().powi(2); // 1 - s
+    let qp = q_of(1.0);
+    let diff = (1.0 - E2) * (d * (1.0 + E2 * s) / ((1.0 - E2) * (1.0 - E2 * s * s)) + (e * d / (1.0 - E2 * s)).atanh() / e);
+    let u = diff / qp; // 1 - sin(beta)
+    (u * (2.0 - u)).max(0.0).sqrt().atan2(1.0 - u)
 }
 
 /// geodetic latitude (rad) -> authalic latitude (rad), closed form
 pub fn authalic_lat(phi: f64) -> f64 {
-    let qp = q_of(1.0);
-    let x = q_of(phi.sin()) / qp;
-    x.clamp(-1.0, 1.0).asin()
+    let c = authalic_colat(std::f64::consts::FRAC_PI_2 - phi.abs());
+    (std::f64::consts::FRAC_PI_2 - c) * phi.signum()
 }
 
+/// a point of the authalic sphere; the colatitude from the pole of its own hemisphere is carried
+/// separately so that nothing loses precision next to the poles
 #[derive(Clone, Copy, Debug)]
 pub struct P {
-    pub lon: f64, // radians
-    pub beta: f64, // authalic latitude, radians
+    pub lon: f64,   // radians
+    pub beta: f64,  // authalic latitude, radians
+    pub c: f64,     // authalic colatitude from the pole of the hemisphere (>= 0)
+    pub north: bool,
+}
+
+impl P {
+    pub fn cosb(&self) -> f64 { self.c.sin() }
+    pub fn sinb(&self) -> f64 { if self.north { self.c.cos() } else { -self.c.cos() } }
+    pub fn pole(north: bool) -> P { P { lon: 0.0, beta: if north { std::f64::consts::FRAC_PI_2 } else { -std::f64::consts::FRAC_PI_2 }, c: 0.0, north } }
 }
 
 pub fn p_of(ll: LonLat) -> P {
-    P { lon: ll.longitude() * DEG, beta: authalic_lat(ll.latitude() * DEG) }
+    let lat = ll.latitude();
+    let t = (90.0 - lat.abs()) * DEG; // exact subtraction next to the poles
+    let c = authalic_colat(t.max(0.0));
+    let north = lat >= 0.0;
+    P { lon: ll.longitude() * DEG, beta: (std::f64::consts::FRAC_PI_2 - c) * if north { 1.0 } else { -1.0 }, c, north }
 }
 
 pub fn wrap_pi(mut d: f64) -> f64 {
@@ -34,23 +59,28 @@ pub fn wrap_pi(mut d: f64) -> f64 {
     d
 }
 
+/// latitude difference b - a without cancellation when both are next to the same pole
+fn dbeta(a: P, b: P) -> f64 {
+    if a.north == b.north { if a.north { a.c - b.c } else { b.c - a.c } } else { b.beta - a.beta }
+}
+
 /// gnomonic coordinates of p in the tangent plane at o, from differences (no cancellation)
 pub fn tangent(o: P, p: P) -> (f64, f64) {
     let dl = wrap_pi(p.lon - o.lon);
-    let db = p.beta - o.beta;
+    let db = dbeta(o, p);
     let s2 = (dl / 2.0).sin();
-    let east = p.beta.cos() * dl.sin();
-    let north = db.sin() + 2.0 * o.beta.sin() * p.beta.cos() * s2 * s2;
+    let east = p.cosb() * dl.sin();
+    let north = db.sin() + 2.0 * o.sinb() * p.cosb() * s2 * s2;
     // cos c = cos(db) - 2 cos b0 cos b sin^2(dl/2)
-    let cosc = db.cos() - 2.0 * o.beta.cos() * p.beta.cos() * s2 * s2;
+    let cosc = db.cos() - 2.0 * o.cosb() * p.cosb() * s2 * s2;
     (east / cosc, north / cosc)
 }
 
 /// great-circle distance in radians (stable for tiny separations)
 pub fn distance(a: P, b: P) -> f64 {
     let dl = wrap_pi(b.lon - a.lon);
-    let db = b.beta - a.beta;
-    let h = (db / 2.0).sin().powi(2) + a.beta.cos() * b.beta.cos() * (dl / 2.0).sin().powi(2);
+    let db = dbeta(a, b);
+    let h = (db / 2.0).sin().powi(2) + a.cosb() * b.cosb() * (dl / 2.0).sin().powi(2);
     2.0 * h.sqrt().min(1.0).asin()
 }
 
